@@ -28,6 +28,7 @@ CDEP = {
     "map_tools": "ciderpress.models.kernel_plans.map_tools",
     "lcao_convolutions": "ciderpress.dft.lcao_convolutions",
     "lcao_nldf_generator": "ciderpress.dft.lcao_nldf_generator",
+    "lcao_interpolation": "ciderpress.dft.lcao_interpolation",
     "grids_indexer": "ciderpress.dft.grids_indexer",
     "gen_cider_grid": "ciderpress.pyscf.gen_cider_grid",
 }
